@@ -537,4 +537,19 @@ def regen_parser_exits():
     return None
 
 
-GENERATORS = {"tables": regen_tables, "parser_exits": regen_parser_exits}
+def regen_simd():
+    """Gen/Simd.lean: constants and loop shape of the x86 SIMD kernels."""
+    sys.path.insert(0, str(VERIF / "gen"))
+    import simd
+    try:
+        ks = simd.extract(REPO)
+    except Exception as e:  # noqa
+        return f"gen:simd: extractor failed: {type(e).__name__}: {e}"
+    if len(ks) == 0:
+        return "gen:simd: no x86 SIMD kernels found in src/helpers.cpp / src/unicode.cpp"
+    with Lock("lake"):
+        write_if_changed(LEAN / "AdaVerif" / "Gen" / "Simd.lean", simd.to_lean(ks))
+    return None
+
+
+GENERATORS = {"tables": regen_tables, "parser_exits": regen_parser_exits, "simd": regen_simd}
